@@ -4,12 +4,10 @@ open Irismod Irismod.Sdk Irismod.Htlc Irismod.Spec.C03 Irismod.Spec.C04 Irismod.
 #print axioms counters_reachable
 #print axioms escrowGe_reachable
 #print axioms inv_donation
-#print axioms escrowExact_run
-#print axioms escrowEq_partial
-#print axioms escrowEq_always_fails
-#print axioms wS_inv
-#print axioms wS_eq
-#print axioms wS_claim_breaks
+#print axioms escrowEq_apply
+#print axioms escrowEq_run
+#print axioms escrowEq_reachable
+#print axioms escrow_recipient_rejected
 #print axioms limits_run
 #print axioms limits_init
 #print axioms supplyTrack_run
@@ -18,7 +16,7 @@ open Irismod Irismod.Sdk Irismod.Htlc Irismod.Spec.C03 Irismod.Spec.C04 Irismod.
 #print axioms create_keeps_window
 #print axioms refund_cannot_fail
 #print axioms claim_incoming_never_fails
--- non-vacuity: the demo history (Audit/C03) satisfies the hypotheses (Inv by inv_init, no self-recipient, params unchanged)
--- and reaches a state with non-zero counters where every executable clause of the spec holds; the witness state of the
--- negative theorem really breaks the identity by exactly the stranded amount
-#eval s!"nonvacuous {escrowEqB Demo.final && countersB Demo.final && limitsB Demo.final && (supOf Demo.final "htltaaa").current == 40 && (supOf Demo.final "htltaaa").tlCurrent == 0 && Bank.supplyOf Demo.final.bank "htltaaa" == 40 && !(escrowEqB (run wS [.claim "A1" z64 z64])) && escrowEqModSelfB (run wS [.claim "A1" z64 z64])}"
+-- non-vacuity: the demo history (Props/C03 Demo) satisfies the hypotheses (Inv by inv_init, empty escrow, params unchanged)
+-- and reaches a state with non-zero counters where every executable clause of the spec holds; a create naming the escrow
+-- account as recipient is rejected by the model
+#eval s!"nonvacuous {escrowEqB Demo.final && countersB Demo.final && limitsB Demo.final && (supOf Demo.final "htltaaa").current == 40 && (supOf Demo.final "htltaaa").tlCurrent == 0 && Bank.supplyOf Demo.final.bank "htltaaa" == 40 && (step Demo.s0 (.create "A0" "M" [("stake", 5)] (genLock (Demo.sec 1) 0) 0 50 false)).toOption.isNone}"
